@@ -28,7 +28,7 @@ PROPERTY = "C13"
 LEVEL = "exploration"
 RULE = (
     "layout case = (shipped .co file | generated valid program, Colang version, transform in {blank, blank_ws, trail, "
-    "comment(2.x), comment_ellipsis(2.x), indent2, indent3, combo}, per-line coin seed); non-trivial = the transform changed >=1 line and the "
+    "trail_tab, comment(2.x), comment_ellipsis(2.x), indent2, indent3, combo}, per-line coin seed); non-trivial = the transform changed >=1 line and the "
     "base parse has >=1 flow or message. robustness case = (version, kind in {mut, soup}, seed file window, seed); "
     "non-trivial = text differs from its seed window and the version heuristic let the real parser run on it; "
     "distinct = sha1(version, transformed/mutated text)"
@@ -52,7 +52,7 @@ ASSUMPTIONS = [
 ]
 SAMPLE_EVERY = 499
 CASE_WALL_S = 30
-HARD_INCONCLUSIVE = ("hook-missing", "monitor-not-reached", "no-shipped-files")
+HARD_INCONCLUSIVE = ("hook-missing", "monitor-not-reached")
 
 STEP_K = {"2.x": 500, "1.0": 60}  # >= 50x the maximum steps/char seen on the shipped files (9.7 with lark, 1.04)
 
@@ -83,25 +83,32 @@ def cases(tier, seed):
     quick = tier == "quick"
     i = 0
     # ---- (a) layout over shipped files
-    reps = 2 if quick else 12
+    reps = 2 if quick else 8
     for path in files:
+        try:
+            has_ellipsis = bool(g.ELLIPSIS_ONLY.search(open(os.path.join(REPO, path), encoding="utf-8").read()))
+        except (OSError, UnicodeDecodeError):
+            has_ellipsis = True
         for tf in g.TRANSFORMS:
+            if tf == "comment_ellipsis" and not has_ellipsis:
+                continue
             for rep in range(reps):
                 if tf.startswith("indent") and rep > 0:
                     continue
                 i += 1
                 yield {"id": i, "fam": "layout", "src": "file", "path": path, "tf": tf, "dense": rep == 0, "seed": "%d-%d" % (seed, rep)}
     # ---- (a) layout over generated valid programs
-    ngen = 250 if quick else 3000
+    ngen = 250 if quick else 2000
     for n in range(ngen):
         for ver in ("2.x", "1.0"):
+            has_ellipsis = ver == "2.x" and bool(g.ELLIPSIS_ONLY.search(g.gen_v2("%d-%d" % (seed, n))[0]))
             for tf in g.TRANSFORMS:
-                if not g.applicable(tf, ver):
+                if not g.applicable(tf, ver) or (tf == "comment_ellipsis" and not has_ellipsis):
                     continue
                 i += 1
                 yield {"id": i, "fam": "layout", "src": "gen", "ver": ver, "gseed": "%d-%d" % (seed, n), "tf": tf, "dense": n % 2 == 0, "seed": "%d-%d" % (seed, n)}
     # ---- (b) robustness
-    nrob = 6000 if quick else 120000
+    nrob = 6000 if quick else 80000
     rng = random.Random("c13-cases-%d" % seed)
     for n in range(nrob):
         ver = "2.x" if n % 2 == 0 else "1.0"
@@ -647,6 +654,8 @@ def classify(r):
     tf = r.get("tf", "?")
     if tf == "comment_ellipsis":
         return "comment-after-ellipsis-shortcut"
+    if tf == "trail_tab" and r.get("ver") == "2.x" and r.get("mech") == "layout-changes-acceptance":
+        return "trailing-tab-rejected-2.x"
     fam = "indent" if tf.startswith("indent") else "blank" if tf.startswith("blank") else tf
     return "%s:%s:%s" % (r.get("mech", "layout"), r.get("ver"), fam)
 
@@ -657,7 +666,7 @@ def finalize(tier, seed, observed, counts):
     need = ["layout_compared", "robust_cases", "outcome_ok", "outcome_parsing-error", "layout_src_file", "layout_src_gen", "generated_tokens_checked"]
     for ver in ("1.0", "2.x"):
         need += ["robust_%s_mut" % ver, "robust_%s_soup" % ver, "layout_%s_blank" % ver, "layout_%s_trail" % ver, "layout_%s_indent2" % ver]
-    need.append("layout_2.x_comment")
+    need += ["layout_2.x_comment", "layout_2.x_comment_ellipsis", "layout_2.x_trail_tab", "layout_1.0_trail_tab"]
     missing = [k for k in need if not observed.get(k)]
     cov = {"step_budget_per_char": dict(STEP_K), "obligations_checked": len(need)}
     if missing:
